@@ -32,6 +32,8 @@ import (
 	"sort"
 	"strconv"
 	"strings"
+	"sync"
+	"time"
 
 	"github.com/youzan/ZanRedisDB/pkg/types"
 	"github.com/youzan/ZanRedisDB/raft/raftpb"
@@ -71,6 +73,8 @@ type cdDrv struct {
 	bytesTotal                                  int64
 	nhugeRun, ncrash, nbatch, nchild, ncrashRun int
 	nchunked, nresend                           int
+	nconn, nreconnect, nstreamMsg, nstreamHB    int
+	nstreamDropped, nstreamAborted              int
 	inproc                                      bool
 	nnotrun                                     int
 	hugeLeft                                    int    // corruptions with a huge length still to be run in a child process
@@ -1126,6 +1130,271 @@ func cdChild(base string) error {
 	return nil
 }
 
+// ------------------------------------------------------------------ (e) stream level: a real streamWriter
+
+// cdConn is the harness's end of an outgoing connection: it keeps what the streamWriter
+// wrote, cut into the pieces between two Flush calls
+type cdConn struct {
+	mu      sync.Mutex
+	buf     []byte
+	flushed int
+	chunks  [][2]int // [start, end) of every flushed piece
+	closed  bool
+	flushc  chan struct{}
+}
+
+func newCdConn() *cdConn { return &cdConn{flushc: make(chan struct{}, 1<<16)} }
+
+func (c *cdConn) Write(p []byte) (int, error) {
+	c.mu.Lock()
+	defer c.mu.Unlock()
+	c.buf = append(c.buf, p...)
+	return len(p), nil
+}
+
+func (c *cdConn) Flush() {
+	c.mu.Lock()
+	if len(c.buf) > c.flushed {
+		c.chunks = append(c.chunks, [2]int{c.flushed, len(c.buf)})
+		c.flushed = len(c.buf)
+	}
+	c.mu.Unlock()
+	select {
+	case c.flushc <- struct{}{}:
+	default:
+	}
+}
+
+func (c *cdConn) Close() error {
+	c.mu.Lock()
+	c.closed = true
+	c.mu.Unlock()
+	return nil
+}
+
+func (c *cdConn) nchunks() int {
+	c.mu.Lock()
+	defer c.mu.Unlock()
+	return len(c.chunks)
+}
+
+func (c *cdConn) chunk(i int) []byte {
+	c.mu.Lock()
+	defer c.mu.Unlock()
+	return c.buf[c.chunks[i][0]:c.chunks[i][1]]
+}
+
+// one connection of a stream-level scenario: what was handed to the writer and was written
+type cdConnLog struct {
+	bad  bool // a hand-over timed out: the attribution is no longer certain, nothing is logged
+	conn *cdConn
+	seen int              // flushed pieces already attributed
+	msgs []raftpb.Message // per attributed piece: the message (a link heartbeat for the writer's own ones)
+}
+
+// streamScenario drives a real streamWriter: attach a connection, replicate (continuation
+// mode on the msgappv2 stream), attach further connections while replicating, go on exactly
+// where the sequence was.  Every connection becomes one trace segment: the frames written to
+// it (in the order of the bytes) as `enc` events, then what a fresh real decoder - as
+// streamReader.decodeLoop creates one per connection - reads from these bytes as `dec`
+// events.  One message is handed over at a time and the writer's flush awaited, so that the
+// attribution of flushed pieces to messages does not depend on timing; the writer's own
+// link heartbeats are separate flushed pieces and are logged as what they are.
+func (d *cdDrv) streamScenario(v2 bool, awaitHB bool) {
+	const sender, receiver = 1, 2
+	sw := rafthttp.VerifStartStreamWriter(types.ID(receiver))
+	defer sw.Stop()
+	hb := rafthttp.VerifLinkHeartbeatMessage()
+	var hbRef []byte
+	if v2 {
+		hbRef = []byte{rafthttp.VerifMsgTypeLinkHeartbeat}
+	} else {
+		var b bytes.Buffer
+		rafthttp.VerifNewMessageEncoder(&b).Encode(&hb)
+		hbRef = b.Bytes()
+	}
+	var logs []*cdConnLog
+	var cur *cdConnLog
+	var curc chan<- raftpb.Message
+	aborted := false
+	// attribute the flushed pieces that have appeared on the current connection; returns
+	// true when a piece that is not a link heartbeat was attributed to m
+	collect := func(m *raftpb.Message) bool {
+		for cur.seen < cur.conn.nchunks() {
+			b := cur.conn.chunk(cur.seen)
+			cur.seen++
+			if bytes.Equal(b, hbRef) {
+				cur.msgs = append(cur.msgs, hb)
+				d.nstreamHB++
+				continue
+			}
+			if m == nil {
+				// a piece nobody asked for: keep it visible as an unknown frame
+				cur.msgs = append(cur.msgs, raftpb.Message{Type: raftpb.MessageType(99)})
+				continue
+			}
+			cur.msgs = append(cur.msgs, *m)
+			return true
+		}
+		return false
+	}
+	attach := func() bool {
+		old := curc
+		c := newCdConn()
+		if !sw.Attach(v2, c, c, c) {
+			return false
+		}
+		if cur != nil {
+			collect(nil)
+			d.nreconnect++
+		}
+		// the writer swaps its queue when it closes the previous connection: wait for the new one
+		deadline := time.Now().Add(30 * time.Second)
+		for {
+			ch, ok := sw.Writec()
+			if ok && (old == nil || ch != old) {
+				curc = ch
+				break
+			}
+			if time.Now().After(deadline) {
+				return false
+			}
+			time.Sleep(50 * time.Microsecond)
+		}
+		cur = &cdConnLog{conn: c}
+		logs = append(logs, cur)
+		d.nconn++
+		return true
+	}
+	send := func(m raftpb.Message) {
+		select {
+		case curc <- m:
+		default:
+			d.nstreamDropped++
+			return
+		}
+		deadline := time.After(30 * time.Second)
+		for {
+			if collect(&m) {
+				d.nstreamMsg++
+				return
+			}
+			select {
+			case <-cur.conn.flushc:
+			case <-deadline:
+				// not written in time (an overloaded machine): which piece belongs to which
+				// message is no longer certain, so this connection is not logged at all and
+				// the scenario ends; never a verdict
+				d.nstreamDropped++
+				cur.bad = true
+				aborted = true
+				return
+			}
+		}
+	}
+	if !attach() {
+		return
+	}
+	// the sequence: two groups replicating in lock-step (equal term and index), as freshly
+	// created partitions do
+	npairs := 1 + d.rng.Intn(2)
+	term := uint64(1 + d.rng.Intn(3))
+	index := make([]uint64, npairs)
+	start := uint64(d.rng.Intn(4))
+	for i := range index {
+		index[i] = start
+	}
+	g := 0
+	nconns := 2 + d.rng.Intn(2)
+	for c := 0; c < nconns && !aborted; c++ {
+		if c > 0 && !attach() {
+			break
+		}
+		n := 3 + d.rng.Intn(5)
+		for i := 0; i < n && !aborted; i++ {
+			if awaitHB && c == 1 && i == 2 {
+				// stay idle until the writer has sent a link heartbeat of its own
+				// (ConnReadTimeout/3), then go on replicating
+				before := d.nstreamHB
+				for t0 := time.Now(); d.nstreamHB == before && time.Since(t0) < 4*time.Second; {
+					collect(nil)
+					time.Sleep(5 * time.Millisecond)
+				}
+			}
+			if v2 {
+				if npairs > 1 && d.rng.Intn(3) == 0 {
+					g = 1 - g
+				}
+				ne := d.rng.Intn(3)
+				if c > 0 && i == 0 && d.rng.Intn(4) != 0 {
+					ne = 1 + d.rng.Intn(2) // usually: replication simply goes on after the re-attach
+				}
+				m := d.appMsg(cdPairs[g], term, term, index[g], ne, 1, index[g])
+				if i == 0 && c == 0 {
+					m.LogTerm = term - 1 + uint64(d.rng.Intn(2))
+				}
+				send(m)
+				index[g] += uint64(ne)
+			} else {
+				send(d.rndMessage(0))
+			}
+		}
+	}
+	collect(nil)
+	// the writer is stopped by the deferred Stop; now replay every connection as a segment
+	for _, l := range logs {
+		if l.bad {
+			d.nstreamAborted++
+			continue
+		}
+		s := &cdStream{v2: v2, buffered: true, local: receiver, rem: sender}
+		s.rd = &cdReader{s: s}
+		stream := "msg"
+		if v2 {
+			stream = "v2"
+		}
+		d.tw.Emit(trace.M{"ev": "reset", "stream": stream, "local": receiver, "remote": sender, "buffered": true, "stage": "stream"})
+		d.nseg++
+		for i := range l.msgs {
+			b := l.conn.chunk(i)
+			m := l.msgs[i]
+			kind := "full"
+			if v2 {
+				switch b[0] {
+				case rafthttp.VerifMsgTypeLinkHeartbeat:
+					kind = "hb"
+				case rafthttp.VerifMsgTypeAppEntries:
+					kind = "cont"
+				case rafthttp.VerifMsgTypeApp:
+					kind = "full"
+				default:
+					kind = "unknown"
+				}
+			}
+			switch kind {
+			case "hb":
+				d.nhb++
+			case "cont":
+				d.ncont++
+			case "full":
+				d.nfull++
+			}
+			s.out.Write(b)
+			dig := cdDigest(&m)
+			s.ends = append(s.ends, s.out.Len())
+			s.sent = append(s.sent, m)
+			s.sentDig = append(s.sentDig, dig)
+			d.nenc++
+			d.bytesTotal += int64(len(b))
+			d.tw.Emit(trace.M{"ev": "enc", "m": cdMsgRec(&m, !v2), "dig": dig, "kind": kind, "nbytes": len(b), "err": ""})
+		}
+		s.dec = cdNewDecoder(v2, true, s.rd, receiver, sender)
+		for d.decode(s) {
+		}
+		d.late(s)
+	}
+}
+
 // ------------------------------------------------------------------ main
 
 func codecsim(args []string) error {
@@ -1134,6 +1403,7 @@ func codecsim(args []string) error {
 	limit := fs.Int("limit", 0, "graph walk: stop after this many steps (0 = cover every edge)")
 	nrandom := fs.Int("random", 0, "random msgappv2 sequences")
 	nmsg := fs.Int("msg", 0, "random generic-stream sequences")
+	nstream := fs.Int("stream", 0, "stream-level scenarios: a real streamWriter with re-attached connections")
 	nexplore := fs.Int("explore", 0, "streams explored byte by byte (truncation, corruption)")
 	full := fs.Bool("full", false, "explore every truncation point of streams up to 32 KB and 10x the samples of larger ones")
 	payload := fs.Bool("payload", false, "also corrupt payload bytes")
@@ -1205,6 +1475,14 @@ func codecsim(args []string) error {
 		s := d.newStream(false, d.rng.Intn(2) == 0, 2, 1, "msg")
 		d.randomMsg(s, *length, *bigp)
 	}
+	if *nstream > 0 {
+		rafthttp.SetLogLevel(0)
+	}
+	for i := 0; i < *nstream; i++ {
+		// the first msgappv2 scenario (and with many scenarios the first generic one) waits for
+		// a heartbeat of the writer's own timer
+		d.streamScenario(i%3 != 2, i == 0 || (i == 2 && *nstream >= 100))
+	}
 	for i := 0; i < *nexplore; i++ {
 		v2 := i%3 != 2
 		bp := 0.0
@@ -1229,7 +1507,8 @@ func codecsim(args []string) error {
 		"truncations": d.ntrunc, "corruptions": d.ncorrupt, "panics": d.npanic, "decode_errors": d.nerrpath,
 		"skipped_large_alloc":   d.nhuge,
 		"above_limit_cases_run": d.nhugeRun, "child_crashes": d.ncrash, "child_processes": d.nchild,
-		"corruptions_not_run_after_crashes": d.nnotrun, "segments_with_short_reads": d.nchunked, "resend_after_big_scenarios": d.nresend} {
+		"corruptions_not_run_after_crashes": d.nnotrun, "segments_with_short_reads": d.nchunked, "stream_connections": d.nconn, "stream_reconnects": d.nreconnect,
+		"stream_messages": d.nstreamMsg, "stream_heartbeats": d.nstreamHB, "stream_not_written": d.nstreamDropped, "stream_connections_not_logged": d.nstreamAborted, "resend_after_big_scenarios": d.nresend} {
 		sum[k] = v
 	}
 	sum["bytes"] = d.bytesTotal
